@@ -545,6 +545,21 @@ impl Relayer {
                 }
             }
 
+            // `into_view` recomputes the proposals hash and the extra hash from the proposals,
+            // uncles and extension the peer supplied: if any of them differs from what the
+            // (already verified) header commits to, this is another block.
+            if block.hash() != compact_block_hash {
+                return ReconstructionResult::Error(
+                    StatusCode::CompactBlockHasUnmatchedHeaderWithReconstructedBlock.with_context(
+                        format!(
+                            "Compact_block hash({}) != reconstruct_block hash({})",
+                            compact_block_hash,
+                            block.hash(),
+                        ),
+                    ),
+                );
+            }
+
             ReconstructionResult::Block(block)
         } else {
             let missing_indexes: Vec<usize> = block_transactions
